@@ -1270,7 +1270,8 @@ fn run(v: &Value) -> Result<String, String> {
             for f in [0u32, 1] { for o in [0u64, 1, 2, 9, u64::MAX] { ops.push(Op::Ack(f, o)); } }
             for r in ["", "a", "b"] { ops.push(Op::Cancel(r)); }
             ops.push(Op::Advance(1));
-            for (dl, wl) in [(1u64, 1usize), (2, 3)] { ops.push(Op::Push(dl, wl)); }
+            // (0, 1): a chunk with no payload bytes (a bare `last` terminator, a metadata-only frame) still occupies a place in the replay order
+            for (dl, wl) in [(1u64, 1usize), (2, 3), (0, 1)] { ops.push(Op::Push(dl, wl)); }
             for f in [0u32, 1] { for o in [0u64, 1, 2, 3] { ops.push(Op::Resume(f, o)); } }
             for c in [1u64, 4] { ops.push(Op::Credit(c)); }
             ops.push(Op::Reconnect);
